@@ -193,20 +193,46 @@ pub struct RunResult {
     pub panic: Option<Panicked>,
 }
 
-/// Runs one controller operation of the REAL `Sign` against a scripted bus.
+thread_local! {
+    /// An operation (with its own reply script) that `run_real` performs on the same `Sign` object before the
+    /// operation under test: a controller that carries anything over from one call to the next (a cached flip
+    /// style, a counter) then behaves differently from the memoryless reference. Set per job by C10/C11.
+    pub static PRELUDE: RefCell<Option<(Op, Vec<Rep>)>> = const { RefCell::new(None) };
+}
+
+pub fn set_prelude(p: Option<(Op, Vec<Rep>)>) {
+    PRELUDE.with(|x| *x.borrow_mut() = p);
+}
+
+fn do_op(sign: &Sign, op: Op, page_lists: &[Vec<Page<'static>>]) -> Result<Outcome, SignError> {
+    match op {
+        Op::Configure => sign.configure().map(|_| Outcome::Ok),
+        Op::ConfigureIfNeeded => sign.configure_if_needed().map(|_| Outcome::Ok),
+        Op::SendPages(i) => sign.send_pages(page_lists[i].iter()).map(|s| Outcome::OkStyle(s == PageFlipStyle::Automatic)),
+        Op::Show => sign.show_loaded_page().map(|_| Outcome::Ok),
+        Op::LoadNext => sign.load_next_page().map(|_| Outcome::Ok),
+        Op::ShutDown => sign.shut_down().map(|_| Outcome::Ok),
+    }
+}
+
+/// Runs one controller operation of the REAL `Sign` against a scripted bus (after the prelude operation, if set).
 pub fn run_real(op: Op, own_addr: u16, foreign: u16, typ: SignType, page_lists: &[Vec<Page<'static>>], script: &[Rep]) -> RunResult {
-    let bus = Rc::new(RefCell::new(ScriptBus { own_addr, foreign, script: script.to_vec(), sent: vec![], starved: false, calls_after_end: 0 }));
+    let prelude = PRELUDE.with(|x| x.borrow().clone());
+    let first = prelude.as_ref().map(|(_, s)| s.clone()).unwrap_or_else(|| script.to_vec());
+    let bus = Rc::new(RefCell::new(ScriptBus { own_addr, foreign, script: first, sent: vec![], starved: false, calls_after_end: 0 }));
     let dynbus: Rc<RefCell<dyn SignBus>> = bus.clone();
     let r = catch(|| {
         let sign = Sign::new(dynbus, Address(own_addr), typ);
-        match op {
-            Op::Configure => sign.configure().map(|_| Outcome::Ok),
-            Op::ConfigureIfNeeded => sign.configure_if_needed().map(|_| Outcome::Ok),
-            Op::SendPages(i) => sign.send_pages(page_lists[i].iter()).map(|s| Outcome::OkStyle(s == PageFlipStyle::Automatic)),
-            Op::Show => sign.show_loaded_page().map(|_| Outcome::Ok),
-            Op::LoadNext => sign.load_next_page().map(|_| Outcome::Ok),
-            Op::ShutDown => sign.shut_down().map(|_| Outcome::Ok),
+        if let Some((pop, _)) = &prelude {
+            let _ = do_op(&sign, *pop, page_lists);
+            // from here on the bus answers from the script under test and records afresh
+            let mut b = bus.borrow_mut();
+            b.script = script.to_vec();
+            b.sent.clear();
+            b.starved = false;
+            b.calls_after_end = 0;
         }
+        do_op(&sign, op, page_lists)
     });
     let (outcome, panic) = match r {
         Ok(Ok(o)) => (o, None),
@@ -219,6 +245,45 @@ pub fn run_real(op: Op, own_addr: u16, foreign: u16, typ: SignType, page_lists: 
     drop(b);
     let outcome = if starved && !matches!(outcome, Outcome::Panic(_)) { Outcome::Starved } else { outcome };
     RunResult { sent, outcome, panic }
+}
+
+/// The reply script under which `op` runs to its documented successful end (`automatic`: the closing query of
+/// send_pages is answered 'showing pages'), built by asking the reference controller what it sends next.
+pub fn cooperative_script(op: Op, own_addr: u16, foreign: u16, typ: SignType, page_lists: &[Vec<Page<'static>>], automatic: bool) -> Vec<Rep> {
+    let st = |s: State| Rep::Report { own: true, state: STATES.iter().position(|x| x.0 == s).unwrap() };
+    let ack = |o: Operation| Rep::Ack { own: true, op: OPS.iter().position(|x| x.0 == o).unwrap() };
+    let mut script: Vec<Rep> = vec![];
+    for _ in 0..100_000 {
+        let (sent, outcome, _) = ref_run(op, own_addr, foreign, typ, page_lists, &script);
+        if outcome != Outcome::Starved {
+            break;
+        }
+        let last = sent.last().unwrap();
+        let prev_request = sent.iter().rev().find_map(|m| if let Message::RequestOperation(_, o) = m { Some(*o) } else { None });
+        let after_count = sent.len() >= 2 && matches!(sent[sent.len() - 2], Message::DataChunksSent(_));
+        let after_complete = sent.len() >= 2 && matches!(sent[sent.len() - 2], Message::PixelsComplete(_));
+        let hellos = sent.iter().filter(|m| matches!(m, Message::Hello(_))).count();
+        let queries = sent.iter().filter(|m| matches!(m, Message::QueryState(_))).count();
+        let r = match last {
+            Message::Hello(_) => match (op, hellos) {
+                (Op::ConfigureIfNeeded, 1) => st(State::Unconfigured),
+                _ => st(State::Unconfigured),
+            },
+            Message::RequestOperation(_, o) => ack(*o),
+            Message::QueryState(_) if after_count => st(if prev_request == Some(Operation::ReceiveConfig) { State::ConfigReceived } else { State::PixelsReceived }),
+            Message::QueryState(_) if after_complete => st(if automatic { State::ShowingPages } else { State::PageLoaded }),
+            Message::QueryState(_) => match (op, queries) {
+                (Op::Show, 1) => st(State::PageLoaded),
+                (Op::Show, _) => st(State::PageShown),
+                (Op::LoadNext, 1) => st(State::PageShown),
+                (Op::LoadNext, _) => st(State::PageLoaded),
+                _ => st(State::PageLoaded),
+            },
+            _ => Rep::Silent,
+        };
+        script.push(r);
+    }
+    script
 }
 
 // ---------------------------------------------------------------------------------------------------------
@@ -544,8 +609,11 @@ pub struct RespBus {
     pub replies: Vec<Option<Message<'static>>>,
     pub keep_data: bool,
     /// (n, variant): the n-th receive request (1-based) is NOT acknowledged properly:
-    /// 0 = silence, 1 = acknowledgement of another operation, 2 = acknowledgement from another address, 3 = a state report
+    /// 0 = silence, 1 = acknowledgement of another operation, 2 = acknowledgement from another address, 3 = a state report,
+    /// 4 / 5 = silence, and a state query that follows before any count is answered with the matching / the other
+    /// 'in progress' state (a sign that acted on the request although its acknowledgement was lost)
     pub nack: Option<(usize, u8)>,
+    pub nack_fired: Option<u8>,
     pub requests_seen: usize,
     /// answer the j-th data chunk (0-based, counted over the whole conversation) with a state report
     pub stray_reply_to_chunk: Option<usize>,
@@ -565,8 +633,9 @@ impl SignBus for RespBus {
                     self.requests_seen += 1;
                     if let Some((n, v)) = self.nack {
                         if n == self.requests_seen {
+                            self.nack_fired = Some(v);
                             reply = match v {
-                                0 => None,
+                                0 | 4 | 5 => None,
                                 1 => Some(Message::AckOperation(own, Operation::StartReset)),
                                 2 => Some(Message::AckOperation(Address(own.0 ^ 0x0100), *op)),
                                 _ => Some(Message::ReportState(own, State::ConfigInProgress)),
@@ -600,6 +669,11 @@ impl SignBus for RespBus {
                         (_, true) => State::PixelsFailed,
                         (_, false) => State::PixelsReceived,
                     };
+                    Some(Message::ReportState(own, st))
+                }
+                (Some(op), false) if matches!(self.nack_fired, Some(4) | Some(5)) => {
+                    let matching = self.nack_fired == Some(4);
+                    let st = if (op == Operation::ReceiveConfig) == matching { State::ConfigInProgress } else { State::PixelsInProgress };
                     Some(Message::ReportState(own, st))
                 }
                 _ => Some(Message::ReportState(own, State::PageLoaded)),
